@@ -24,6 +24,7 @@ type cmpSpec struct {
 	subj, ref string                 // dialects: scanner under test, reference scanner
 	triggers  map[string]bool        // token kinds after which the REFERENCE inserts a semicolon at a newline
 	domain    func(src []byte, subj, ref Stream) string // "" if the input is in the property's domain, else the reason
+	errors    bool                   // the statement covers error offsets (C16 does, C32 does not)
 }
 
 func set(words string) map[string]bool {
@@ -383,7 +384,7 @@ func (cs *cmpSpec) run() {
 
 	// phase 2: judge every input
 	a := newAgg()
-	var explained, unexplained int64
+	var explained, unexplained, errOnly int64
 	var emu sync.Mutex
 	hlib.Parallel(len(order), 12, func(gi int) {
 		g := order[gi]
@@ -403,7 +404,15 @@ func (cs *cmpSpec) run() {
 			a.add(res, g.gen)
 			return
 		}
-		sigs, details := cs.divergences(src, sOn, rOn, sOff, rOff, true)
+		sigs, details := cs.divergences(src, sOn, rOn, sOff, rOff, cs.errors)
+		if !cs.errors && len(sigs) == 0 {
+			// not part of the statement: counted, never judged
+			if es, _ := cs.divergences(src, sOn, rOn, sOff, rOff, true); len(es) > 0 {
+				emu.Lock()
+				errOnly++
+				emu.Unlock()
+			}
+		}
 		// the model: per-stream drift, and does it explain the divergence?
 		drift, driftDetail := "", ""
 		model := map[string]Stream{}
@@ -471,7 +480,8 @@ func (cs *cmpSpec) run() {
 		}
 		a.add(res, g.gen)
 	})
-	a.summary(map[string]any{"inputs": len(order), "divergences_explained_by_model": explained, "divergences_not_explained": unexplained})
+	a.summary(map[string]any{"inputs": len(order), "divergences_explained_by_model": explained, "divergences_not_explained": unexplained,
+		"error_offset_differences_outside_statement": errOnly})
 }
 
 // C16: inputs composed only of Go lexemes -- go/scanner itself finds no ILLEGAL character, and no
@@ -512,7 +522,7 @@ func domainC32(src []byte, tpl, xgo Stream) string {
 }
 
 func runC16() {
-	cs := &cmpSpec{subj: "xgo", ref: "go", triggers: goTriggers, domain: domainC16}
+	cs := &cmpSpec{subj: "xgo", ref: "go", triggers: goTriggers, domain: domainC16, errors: true}
 	cs.run()
 }
 
